@@ -14,6 +14,19 @@ for f in sys.argv[1:]:
         s = re.sub(r'^<<<<<<< .*\n', '', s, flags=re.M)
         s = re.sub(r'^=======\n', '', s, flags=re.M)
         s = re.sub(r'^>>>>>>> .*\n', '', s, flags=re.M)
-        open(f, 'w').write(s)
+        # both sides usually re-open `namespace Ytk.Cxx` and shared the closing `end`: close before re-opening
+        out, stack = [], []
+        for line in s.split('\n'):
+            m = re.match(r'^namespace\s+(\S+)\s*$', line)
+            e = re.match(r'^end\s+(\S+)\s*$', line)
+            if m:
+                if stack and stack[-1] == m.group(1) and m.group(1).startswith('Ytk.C'):
+                    out += ['end ' + m.group(1), '']
+                    stack.pop()
+                stack.append(m.group(1))
+            elif e and stack and stack[-1] == e.group(1):
+                stack.pop()
+            out.append(line)
+        open(f, 'w').write('\n'.join(out))
     subprocess.run(['git', 'add', f])
     print('resolved', f)
